@@ -67,6 +67,26 @@ func genC02(r *fw.Rng, tier string, emit func(fw.Case)) {
 	if tier == "thorough" {
 		nValid, nRand, maxLen = 40000, 100000, 6
 	}
+	// (0) the declared length is a 10-bit field and the real length an int: bodies that are 65536·k bytes longer than
+	// declared (a comparison done in 16 bits would accept them), with a valid checksum
+	nWrap := 6
+	if tier == "thorough" {
+		nWrap = 40
+	}
+	for i := 0; i < nWrap; i++ {
+		h := frames.RandH(r)
+		decl := []int{0, 5, 1023, r.Intn(1024)}[i%4]
+		k := 1
+		if i%5 == 4 {
+			k = 2
+		}
+		big := make([]byte, decl+65536*k) // zero bytes and a few others, no escapes needed: the frame stays ~64 KiB
+		for j := 0; j < len(big); j += 1 + r.Intn(4096) {
+			big[j] = byte(1 + r.Intn(0x7c))
+		}
+		emitDec(emit, frames.Escape(frames.Plain(h, big, decl)))
+		emitDec(emit, frames.Escape(frames.Plain(h, big[:len(big)-1], decl)))
+	}
 	// (1) valid frames + their corruptions
 	for i := 0; i < nValid; i++ {
 		h := frames.RandH(r)
